@@ -621,7 +621,7 @@ wav_read_header	(SF_PRIVATE *psf, int *blockalign, int *framesperblock)
 						break ;
 						} ;
 
-					if ((marker & TAG__MARKER_MASK) == TAG__MARKER &&
+					if ((marker & TAG__MARKER_MASK) == TAG__MARKER && (parsestage & HAVE_data) &&
 						psf_ftell (psf) - 8 + 128 == psf->filelength)
 					{	psf_log_printf (psf, "*** Hit ID3v1 trailer. Exiting parser.\n") ;
 						chunk_size = 128 ;
